@@ -12,7 +12,7 @@ VERIF = os.path.dirname(os.path.dirname(os.path.abspath(__file__)))
 
 
 class Instance:
-    __slots__ = ('rule', 'at', 'function', 'construct', 'verdict', 'fact', 'known')
+    __slots__ = ('rule', 'at', 'function', 'construct', 'verdict', 'fact', 'known', '_what')
 
     def __init__(self, rule, at, function, construct, verdict, fact):
         self.rule = rule
@@ -22,6 +22,7 @@ class Instance:
         self.verdict = verdict   # holds | violation | note
         self.fact = fact
         self.known = None
+        self._what = ''
 
     def as_dict(self):
         d = {'rule': self.rule, 'at': self.at, 'function': self.function, 'verdict': self.verdict,
